@@ -111,6 +111,13 @@ DISK = {m: _stemmed(src) for m, src in DISK.items()}
 MAIN = {m: _stemmed(src) for m, src in MAIN.items()}
 
 
+PCHAIN = {
+	'pa': 'class K:\n\tn: int\n\n\tdef __init__(self, n: int) -> None:\n\t\tself.n = n\n\n\tdef get(self) -> int:\n\t\treturn self.n\n',
+	'pb': 'from vm.pa import K\n\ndef use(k: K) -> int:\n\th = k.get()\n\treturn h + k.n\n',
+	'pc': 'from vm.pa import K\nfrom vm.pb import use\n\nr = use(K(2))\n',
+}
+
+
 def real_name(m: str) -> str:
 	return '__main__' if m == 'main' else f'vm.{STEM4[m]}'
 
@@ -290,12 +297,17 @@ def _cli_run(args) -> dict:
 	w = World(root, 'Chain')
 	with open(os.path.join(root, 'vm', 'rich.py'), 'w') as f:
 		f.write(RICH)
-	w.mods = list(w.mods) + ['rich']
+	# a second chain whose middle module needs the symbols of the module it imports WHILE it is transpiled (an attribute and a
+	# method of an imported class): pc -> pb -> pa, listed in the same permutation as a, b, c
+	for name, src in PCHAIN.items():
+		with open(os.path.join(root, 'vm', f'{name}.py'), 'w') as f:
+			f.write(src)
+	w.mods = list(w.mods) + ['rich', 'pa', 'pb', 'pc']
 	import yaml
 	cfg_path = os.path.join(root, 'config.yml')
 	cfg = yaml.safe_load(open(cfg_path))
 	from harness.fs_binding import stem_of
-	cfg['input_globs'] = [f'vm/{stem_of("Chain", m).replace(".", "/")}.py' for m in order] + ['vm/rich.py']
+	cfg['input_globs'] = [f'vm/{stem_of("Chain", m).replace(".", "/")}.py' for m in order] + ['vm/rich.py'] + [f'vm/{ {"a": "pc", "b": "pb", "c": "pa"}[m] }.py' for m in order]
 	yaml.safe_dump(cfg, open(cfg_path, 'w'))
 	env = dict(os.environ)
 	env.update({'PYTHONHASHSEED': hashseed, 'VERIF_CACHE_DIR': os.path.join(root, 'cache'), 'VERIF_CACHE_ENABLED': '1', 'PYTHONPATH': f'{os.path.dirname(os.path.dirname(os.path.dirname(os.path.abspath(__file__))))}:{root}'})
@@ -373,15 +385,22 @@ def run(ctx: Ctx) -> int:
 	ctx.log(f'interactive loop: {len(its)} scripted sessions, {n_it} printed results compared')
 
 	# configuration axis: hash seeds x target orders in OS processes
-	orders = [['a', 'b', 'c'], ['c', 'b', 'a']] if quick else [list(p) for p in itertools.permutations(['a', 'b', 'c'])]
+	orders = [list(p) for p in itertools.permutations(['a', 'b', 'c'])]
 	seeds = ['0', '1', '12345', 'random']
-	jobs = [(os.path.join(scratch_dir('verif-c04-cli-'), 'w'), order, seed) for order in orders for seed in seeds]
+	# quick: every target order once, the hash seeds spread over them; thorough: the full product
+	pairs = [(order, seeds[i % len(seeds)]) for i, order in enumerate(orders)] + [(orders[0], '12345'), (orders[-1], 'random')] if quick else [(order, seed) for order in orders for seed in seeds]
+	jobs = [(os.path.join(scratch_dir('verif-c04-cli-'), 'w'), order, seed) for order, seed in pairs]
 	with ProcessPoolExecutor(max_workers=min(16, len(jobs))) as ex:
 		cli = list(ex.map(_cli_run, jobs))
 	base = cli[0]
+	if base['rc'] != 0 or any(v is None for v in base['files'].values()):
+		raise Machinery(f'command-line run failed: order={base["order"]} seed={base["hashseed"]} rc={base["rc"]} {base["stderr"]}')
 	for r in cli:
 		if r['rc'] != 0 or any(v is None for v in r['files'].values()):
-			raise Machinery(f'command-line run failed: order={r["order"]} seed={r["hashseed"]} rc={r["rc"]} {r["stderr"]}')
+			# the same targets in another order (or under another hash seed) do not even finish: the output depends on the order
+			missing = [m for m, v in r['files'].items() if v is None]
+			violations.append(Violation(f'cli:{"order" if r["order"] != base["order"] else "hashseed"}:run-fails', 'Deterministic', f'the run with order={r["order"]}, PYTHONHASHSEED={r["hashseed"]} ends with rc={r["rc"]} and leaves {missing} unwritten ({r["stderr"][-160:]!r}); order={base["order"]} writes everything', {'a': base, 'b': r}))
+			continue
 		if r['files'] != base['files']:
 			which = [m for m in r['files'] if r['files'][m] != base['files'][m]]
 			violations.append(Violation(f'cli:{"order" if r["order"] != base["order"] else "hashseed"}', 'Deterministic', f'output of {which} differs between (order={base["order"]}, PYTHONHASHSEED={base["hashseed"]}) and (order={r["order"]}, PYTHONHASHSEED={r["hashseed"]})', {'a': base, 'b': r}))
